@@ -127,3 +127,10 @@ Theorem C03_acyclic_input_all_downward_any_positioner : forall bk o g g' x, comp
   forall e, In e (g_E g) -> self_loop g e = false -> e_ahs (gedge g' e) = false.
 Proof. exact Gx2_acyclic_input_has_no_upward_edge_any. Qed.
 Print Assumptions C03_acyclic_input_all_downward_any_positioner.
+
+(* ---------- with spline routing too (no contract on the oracles; Proofs/SplinePipeline2.v) ---------- *)
+From Autog Require Import Geom SplineStruct Splines PipelineSpl SplineRouting SplinePipeline SplinePipeline2.
+Theorem C03_component_end_to_end_any_router : forall shortest fit mk_inner bk o g g' x, component_input g -> routed_p5 (o_p5 o) ->
+  layout_component_sx shortest fit mk_inner bk o g = Ok (g', x) -> E2_statement (o_layer_spacing o) g g'.
+Proof. exact Gs2_bands_any. Qed.
+Print Assumptions C03_component_end_to_end_any_router.
